@@ -28,16 +28,18 @@ RULE = ("case = (system, history).  system: solver kind in {SolveUnc real-uncoup
 ASSUMPTIONS = [
     "the batch tsolve of the same class on a twin instance is the reference the property "
     "names; its own correctness is C01/C17's business",
-    "round-off tolerance: 1e-11 (uncoupled, cd_as_force, SolveExp2) / 1e-9 "
-    "(complex-eigen path, bounded eigenvector conditioning) relative to the row scale "
-    "of the batch solution; bugs in the recurrences show up at >= 1e-5",
+    "round-off tolerance: 1e-11 (uncoupled, cd_as_force, SolveExp2) / max(1e-9, "
+    "2000*eps*cond(V)) (complex-eigen path; cond(V) of the eigenvectors of the dense "
+    "state matrix built by the harness, cases with cond(V) > 1e6 refused) relative to the "
+    "size of the terms that are added to form d, v, a (from the batch solution and the "
+    "harness's dense matrices); bugs in the recurrences show up at >= 1e-5",
     "numba is not installed: _solve_real_unc_inner_loop runs as plain Python",
 ]
-MIN_NONTRIVIAL = {"quick": 5000, "thorough": 200000}
+MIN_NONTRIVIAL = {"quick": 10000, "thorough": 150000}
 TIMEOUT = {"quick": 900, "thorough": 7200}
 
 NSLICE = {"quick": 3, "thorough": 16}
-NHIST = {"quick": 500, "thorough": 4000}     # histories per (kind, slice)
+NHIST = {"quick": 1000, "thorough": 2500}     # histories per (kind, slice)
 LAYOUTS = [("rb", "el", "rf"), ("el", "rb", "rf"), ("rf", "rb", "el"),
            ("rf", "el", "rb")]
 PATTERNS = ["resend", "jumpback", "addon", "addon-burst", "addon-after-jumpback",
@@ -324,8 +326,41 @@ def _scales(np, S, am, want, F):
     return sd + 1e-300, sv + 1e-300, sa + 1e-300
 
 
-def _tolrel(S):
-    return 1e-9 if S["tags"]["path"] == "complex" else 1e-11
+EPS = 2.220446049250313e-16
+
+
+def _tolrel(np, sh, S):
+    """Relative round-off allowance.  Uncoupled / cd_as_force / SolveExp2 recurrences are
+    sums of a handful of products: 1e-11.  The complex-eigen path transforms through the
+    eigenvector matrix of the state matrix, so its round-off is eps*cond(V); cond(V) is
+    measured HERE on the dense state matrix built by the workload generator (numpy eig,
+    unit-norm columns), never on pyYeti's pc.ur.  Observed: errors up to 1e-11 at
+    cond(V) ~ 1e2..1e4 (err/(eps*cond) up to 200); allowed max(1e-9, 2000 eps cond(V)).
+    cond(V) > 1e6 -> the case is refused (not judged)."""
+    if "rtol" in S:
+        return S["rtol"]
+    rtol = 1e-11
+    el = S["el"]
+    if S["tags"]["path"] == "complex" and len(el):
+        ix = np.ix_(el, el)
+        n = len(el)
+        Mi = np.linalg.inv(S["M"][ix])
+        A = np.zeros((2 * n, 2 * n), dtype=np.result_type(S["B"], float))
+        A[:n, :n] = -Mi @ S["B"][ix]
+        A[:n, n:] = -Mi @ S["K"][ix]
+        A[n:, :n] = np.eye(n)
+        _, V = np.linalg.eig(A)
+        V = V / np.linalg.norm(V, axis=0)
+        cV = float(np.linalg.cond(V))
+        S["condV"] = cV
+        sh.count("cell:eigvec-cond:" + ("<1e3" if cV < 1e3 else "1e3-1e4" if cV < 1e4
+                                        else "1e4-1e6" if cV < 1e6 else ">1e6"))
+        if not cV < 1e6:
+            rtol = None
+        else:
+            rtol = max(1e-9, 2000 * EPS * cV)
+    S["rtol"] = rtol
+    return rtol
 
 
 def _batch(twin, S, F):
@@ -361,7 +396,7 @@ def run_history(sh, np, ode, S, ops, r, case, tags, warm=False):
     """Drive one history through the generator; monitors after every send."""
     n = S["n"]
     nt = 1 + max(i for i, _ in ops)
-    rtol = _tolrel(S)
+    rtol = _tolrel(np, sh, S)
     ts = build(ode, S)
     twin = build(ode, S)
     am = _absmats(np, S)
@@ -470,7 +505,7 @@ def run_f2x(sh, np, ode, S, r, case, tags):
             sc = np.abs(phi) @ np.abs(X) @ np.abs(phi.T)
             # subtraction d_after - d_before costs eps*|d| per row (live state only)
             cancel = (np.abs(phi) @ fl)[:, None] * np.abs(phi).sum(axis=1)[None, :]
-            tol = _tolrel(S) * np.maximum(sc, 1e-3 * sc.max()) + 1e-300
+            tol = S["rtol"] * np.maximum(sc, 1e-3 * sc.max()) + 1e-300
             if state == "live":
                 tol = tol + 64 * 2.3e-16 * cancel * n
             sh.check_close(f"f2x-{'velo' if velo else 'disp'}-{state}",
@@ -532,6 +567,47 @@ def run_refusals(sh, np, ode, r):
                 sh.violation("refusal", case, {"returned": "a generator"}, tags)
 
 
+def run_degenerate(sh, np, ode, kind, r):
+    """nt = 1 (nothing can be sent; also with h=None, the static solver) and nt = 2."""
+    for j in range(12):
+        S = make_system(r, kind, np)
+        if _tolrel(np, sh, S) is None:
+            continue
+        n = S["n"]
+        nt = 1 + j % 2
+        static = j % 4 == 2
+        if static:
+            S = {**S, "kw": {**S["kw"], "h": None}}
+            nt = 1
+        tags = {**S["tags"], "degenerate": True, "nt": nt, "h_none": static}
+        case = {"degenerate": j, "kind": kind, "nt": nt, "h_none": static,
+                "tags": S["tags"]}
+        sh.case(["degenerate", kind, j, S["tags"]["layout"]], nontrivial=False)
+        try:
+            ts, twin = build(ode, S), build(ode, S)
+            F = S["fscale"][:, None] * r.standard_normal((n, nt))
+            gen, d, v = ts.generator(nt, F[:, 0].copy(), d0=S["d0"], v0=S["v0"],
+                                     static_ic=S["static_ic"])
+            if nt == 2:
+                gen.send((1, F[:, 1].copy()))
+                gen.send((-1, F[:, 1].copy()))
+                F[:, 1] *= 2
+            sol = ts.finalize(get_force=True)
+            want = _batch(twin, S, F.copy())
+            am = _absmats(np, S)
+            S1 = {**S, "h": S["h"] if not static else 0.0}
+            sd, sv, sa = _scales(np, S1, am, want, F)
+            sh.check_close("degenerate-d", sol.d, want.d, S["rtol"] * sd, case, tags)
+            sh.check_close("degenerate-v", sol.v, want.v, S["rtol"] * sv, case, tags)
+            sh.check_close("degenerate-a", sol.a, want.a, S["rtol"] * sa, case, tags)
+            sh.check_equal("degenerate-force", np.asarray(sol.force),
+                           np.asarray(F, dtype=sol.force.dtype), case, tags)
+        except Exception as e:
+            import traceback
+            sh.violation("exception:degenerate", case,
+                         {"exc": repr(e), "tb": traceback.format_exc()[-1200:]}, tags)
+
+
 # ------------------------------------------------------------------------------------
 
 def run_shard(sh, params):
@@ -568,6 +644,15 @@ def run_shard(sh, params):
         for p in pats:
             sh.count(f"pattern:{kind}:{p}")
         sh.count("hist:sends-total", len(ops))
+        ns = len(ops)
+        sh.count("hist:sends:" + ("08-15" if ns < 16 else "16-23" if ns < 24 else
+                                  "24-31" if ns < 32 else "32-40" if ns <= 40 else
+                                  "41+"))
+        sh.count(f"hist:nt:{'06-12' if nt < 13 else '13-19' if nt < 20 else '20-25'}")
+        if _tolrel(np, sh, S) is None:
+            sh.refused += 1
+            sh.count("refused:eigvec-cond>1e6")
+            continue
         try:
             run_history(sh, np, ode, S, ops, r, case, tags, warm=(ci % 4 == 3))
         except Exception as e:
@@ -589,12 +674,15 @@ def run_shard(sh, params):
         sh.count("shape:" + core.digest(s))
     if sl == 0:
         run_refusals(sh, np, ode, core.rng(sh.seed, "C08", "refusals", kind))
+    run_degenerate(sh, np, ode, kind, core.rng(sh.seed, "C08", "degenerate", kind, sl))
 
 
 MONITORS = ["send-d", "send-v", "send-force", "finalize-d", "finalize-v", "finalize-a",
             "finalize-force", "finalize-eom-residual", "finalize-rf-static",
             "f2x-disp-zero", "f2x-velo-zero", "f2x-disp-live", "f2x-velo-live",
-            "f2x-order0-zeros", "refusal", "shared-arrays", "finalize-deletes-refs"]
+            "f2x-order0-zeros", "refusal", "shared-arrays", "finalize-deletes-refs",
+            "f2x-complex-notimplemented", "degenerate-d", "degenerate-a",
+            "finalize-rf-va-zero", "finalize-t"]
 
 
 def finalize(agg, tier):
@@ -624,9 +712,15 @@ def finalize(agg, tier):
 def evidence_extra(agg, tier):
     c = agg["counters"]
     nshape = sum(1 for k in c if k.startswith("shape:"))
-    for k in [k for k in c if k.startswith("shape:")]:
-        del c[k]
+    shapes = [x["shape"] for x in agg["samples"] if isinstance(x, dict) and "shape" in x]
     return {"distinct_history_shapes": nshape,
+            "history_shape_examples": shapes[:4],
             "sends_checked_against_batch": c.get("sends", 0),
+            "sends_per_history": {k[11:]: v for k, v in sorted(c.items())
+                                  if k.startswith("hist:sends:")},
             "history_patterns": {k[8:]: v for k, v in sorted(c.items())
-                                 if k.startswith("pattern:")}}
+                                 if k.startswith("pattern:")},
+            # the per-shape counters are only a vehicle for the distinct count
+            "coverage_cells": {k: v for k, v in sorted(c.items())
+                               if not k.startswith(("mon:", "violation:", "shape:",
+                                                    "pattern:"))}}
